@@ -127,6 +127,11 @@ def check(ctx):
         _answer_pred(ctx, repo, m, fn, k, accs)
     ctx.floor("answer_predicates", n_ans, 5)
 
+    # the predicates read `result_code_avp`, the name append/load give to the AVP that the dictionary maps to Result-Code: only
+    # (no vendor, 268) may be materialised as that class (registry look-up by exactly vendor and code; shared with C02/C10)
+    ctx.clause = "2b-result-code-identity"
+    from .c02 import _registry
+    _registry(ctx, repo)
     ctx.clause = "3-error-bit"
     fn = ctx.need(m.funcs.get("is_result_code_error"), "bromelia.utils.is_result_code_error")
     construct = "bromelia.utils.is_result_code_error"
@@ -202,8 +207,12 @@ def _answer_pred(ctx, repo, m, fn, k, accs):
     for p in enum_paths(fn.body, decide=decide_by_assignments):
         conds = {ast.unparse(t): tr for t, tr in p.conds()}
         guard = conds.get(f"{pname}.has_avp('result_code_avp')")
-        if guard is not True:
+        if guard is False:
             continue
+        if guard is None and (p.term != "return" or p.term_node.value is None or
+                              (isinstance(p.term_node.value, ast.Constant) and p.term_node.value.value is None)):
+            continue          # a path that neither consults the Result-Code nor classifies
+        # (a path that classifies without having consulted the Result-Code also stands for the answers that carry one)
         env = {}
         for s in p.stmts():
             if isinstance(s, ast.Assign) and len(s.targets) == 1 and isinstance(s.targets[0], ast.Name):
